@@ -45,6 +45,15 @@ def registry():
         'C13': (cm.check_C13, 'exhaustive one primed/unprimed pair (16x16 functions, both orders, all qvars, both quantifiers, names/levels); sampled 2-3 pairs, adjacent and (image) arbitrary orders'),
         'C18': (cm.check_C18, 'all 256 functions, both signs: to_nx / DOT text re-read and evaluated, descendants, len, succ; Function.low/high/var/negated traversal'),
     })
+    # vertical slices register themselves: any harness/checks_*.py with a REGISTRY dict
+    import glob
+    import importlib
+    for path in sorted(glob.glob(os.path.join(HERE, 'checks_*.py'))):
+        name = os.path.basename(path)[:-3]
+        if name in ('checks_core', 'checks_more'):
+            continue
+        mod = importlib.import_module(name)
+        reg.update(getattr(mod, 'REGISTRY', {}))
     return reg
 
 
